@@ -400,7 +400,7 @@ func cidKey(t *sim.Tape, content []byte, forMem bool) (string, string, datamodel
 	return l.Binary(), fmt.Sprintf("cidv%d-mh%x", ver, mht), l
 }
 
-var adversarial = []string{"", "/", "..", "../../x", "../x", "a/b", "a", "a/./b", "a//b", "/etc/passwd", "x\x00y", "\x00", ".", "./x", "..x", "x/..", "x/../../../y",
+var adversarial = []string{"a..b", "v1..0", "...", "..z", "", "/", "..", "../../x", "../x", "a/b", "a", "a/./b", "a//b", "/etc/passwd", "x\x00y", "\x00", ".", "./x", "..x", "x/..", "x/../../../y",
 	"AbC", "aBc", ".temp", ".temp/x", "00", "0000", "~", "a b", "\xff\xfe", "\n", "con", "x/"}
 
 func (w *world) genKey(i int, content []byte) (string, string, datamodel.Link) {
@@ -531,11 +531,36 @@ func (w *world) do(client, kind, k int, pieces []int, end, chunk int, scribble b
 		if _, ok := store.(storage.VectorWritableStorage); !ok {
 			w.st.Inc("probe.fallback_putvec")
 		}
-		var vec [][]byte
+		// The vector's elements are cut from ONE arena (what a caller with a scratch buffer or an
+		// arena allocator hands over): laid out in a tape-chosen order, each element a sub-slice
+		// whose capacity runs on into its neighbours. They do not overlap; a store must only read them.
+		var bounds [][2]int
 		prev := 0
 		for _, sp := range append(append([]int(nil), pieces...), len(content)) {
-			vec = append(vec, append([]byte(nil), content[prev:sp]...))
+			bounds = append(bounds, [2]int{prev, sp})
 			prev = sp
+		}
+		order := make([]int, len(bounds))
+		for i := range order {
+			order[i] = i
+		}
+		if scribble { // reuse the flag as "arena layout permuted"
+			for i := len(order) - 1; i > 0; i-- {
+				j := w.t.Choice(i+1, "vec.perm")
+				order[i], order[j] = order[j], order[i]
+			}
+			w.st.Inc("probe.putvec_arena_permuted")
+		}
+		arena := make([]byte, 0, len(content)+16)
+		offs := make([]int, len(bounds))
+		for _, bi := range order {
+			offs[bi] = len(arena)
+			arena = append(arena, content[bounds[bi][0]:bounds[bi][1]]...)
+		}
+		arena = arena[:cap(arena)]
+		vec := make([][]byte, len(bounds))
+		for bi, b := range bounds {
+			vec[bi] = arena[offs[bi] : offs[bi]+(b[1]-b[0])]
 		}
 		err := storage.PutVec(ctx, store, key, vec)
 		if scribble {
